@@ -94,7 +94,7 @@ func (f *frame) execInstr(in ssa.Instruction, cur *State) {
 	switch x := in.(type) {
 	case *ssa.Alloc:
 		et := x.Type().(*types.Pointer).Elem()
-		if _, ok := isStruct(et); ok {
+		if _, ok := isStruct(et); ok && x.Heap {
 			r := vc.allocRef(cur, "new_"+x.Name())
 			cur.nonnil[r] = true
 			f.env[x] = sv{r}
